@@ -1,9 +1,10 @@
 import Bec2Verif.Model.EcOps
+import Bec2Verif.Props.C17Group
 /-!
 # C17 — elliptic-curve arithmetic, ECDH and public-point validation
 
 First part (core Lean only): what the validation accepts, stated outright.
-The formula / group-law theorems live in `Props/C17Group.lean` (Mathlib).
+The formula / group-law theorems live in `Props/C17Group.lean` (Mathlib), imported here.
 -/
 namespace Bec2Verif.C17
 open Bec2Verif Ec
